@@ -511,8 +511,9 @@ def check_case(ctx, case):
 def bounded(ctx):
     lit = lambda t: ['lit', t]   # noqa
     uni = [[lit('/a/b')], [lit('/a/bc')], [lit('/a/'), ['w', 'x', None, None]], [lit('/a/'), ['w', 'x', None, None], lit('/c')], [lit('/ab')],
-           [lit('/a/'), ['w', 'y', None, None]]]          # (the pattern of rule 2 under another wildcard name)
-    hookable = [[lit('/a/')], [lit('/a/b')], [lit('/')], [lit('/a/'), ['w', 'x', None, None]], [lit('/a')]]
+           [lit('/a/'), ['w', 'y', None, None]],          # (the pattern of rule 2 under another wildcard name)
+           [lit('/a/report')]]
+    hookable = [[lit('/a/')], [lit('/a/b')], [lit('/')], [lit('/a/'), ['w', 'x', None, None]], [lit('/a')], [lit('/a/reg')], [lit('/a/bd')]]
     alphabet = [
         {'op': 'add', 'rule': 0, 'methods': ['GET'], 'name': 'n1', 'overwrite': False, 'choice': []},
         {'op': 'add', 'rule': 1, 'methods': ['GET'], 'name': None, 'overwrite': False, 'choice': []},
@@ -528,13 +529,15 @@ def bounded(ctx):
         {'op': 'remove_name', 'name': 'n1'},
         {'op': 'remove_obj', 'handle': 0},                # through the Route object the first accepted add() returned (stale if that rule was removed since)
         {'op': 'remove_prefix', 'hook': 1, 'choice': []},
+        {'op': 'add', 'rule': 6, 'methods': ['GET'], 'name': None, 'overwrite': False, 'choice': []},                      # /a/report
+        {'op': 'remove_prefix', 'hook': 5, 'choice': []},                                                                   # '/a/reg*': shares 're' with the key of /a/report, then diverges
         {'op': 'add_hook', 'hook': 0, 'type': 0, 'choice': []},
         {'op': 'add_hook', 'hook': 3, 'type': 0, 'choice': []},
         {'op': 'add_hook', 'hook': 1, 'type': 0, 'choice': []},           # a hook on the static branch below the fork /a/ -> b | <x>
         {'op': 'remove_hook', 'hook': 0, 'choice': []},
         {'op': 'add_hook', 'hook': 2, 'type': 0, 'choice': []},
     ]
-    paths = ['/a/b', '/a/bc', '/a/x', '/a/x/c', '/ab', '/a/', '/a', '/', '/a/b/c', '/a/bcd', '/zz']
+    paths = ['/a/b', '/a/bc', '/a/x', '/a/x/c', '/ab', '/a/', '/a', '/', '/a/b/c', '/a/bcd', '/zz', '/a/report', '/a/reg']
     depth = 4 if ctx.tier == 'quick' else 5
     seqs = list(itertools.product(range(len(alphabet)), repeat=depth))
     mine = seqs[ctx.shard::max(1, ctx.nshards)]
